@@ -621,7 +621,7 @@ def odometer_next(ctx, F):
     # (1) exhausted => None, state untouched
     sel = None
     for sbb, dt, names, t in switches(nb, ntm):
-        d_ = clean(dt)
+        d_ = cleanT(dt)
         if d_[0] == "discr" and d_[1][0] == "call" and d_[1][1].endswith("Try>::branch") and len(d_[1][2]) == 1:
             d_ = ("discr", d_[1][2][0])
         if d_ == ("discr", POS) and names:
@@ -649,6 +649,7 @@ def odometer_next(ctx, F):
         pf = positional_form(F, nosite(deep_strip(ntm.operand(site.args[0], site.bb))))
         if pf is None:
             continue
+        pf = (cleanT(pf[0]), {cleanT(x) for x in pf[1]})
         got = pf
         oke = pf[0] == ("at", ("at", SETS, ("i",)), ("at", POS, ("i",))) and pf[1] <= {NSETS, ("len", POS), ("len", SETS)}
     if not oke and got is None:
@@ -686,6 +687,8 @@ def odometer_next(ctx, F):
                 idx = _range_index(rows, sub)
                 if idx is not None:
                     place = (body, via, h, rows, sub, idx)
+        if place is None and _declarative_step(ctx, F, nb, ntm, sel):
+            return
         if not ctx.check(place is not None, "next:advance-loop", "no loop over the positions 0..sets.len() found in next (or in a helper it calls)", nb.where(), detail="for idx in 0..sets.len()"):
             return
         _advance_rows(ctx, F, nb, *place)
@@ -729,6 +732,116 @@ def _final_len_invariant(F):
     fpos = dict(rt[3]).get("final_pos")
     pf = positional_form(F, fpos) if fpos is not None else None
     return pf is not None and pf[1] == {("len", ("arg", 1))}
+
+
+def cleanT(t):
+    """clean(), reading `self.pos.take()` as self.pos (the caller checks that the state is stored again on every path that took it)"""
+    return rewrite(clean(t), lambda y: cleanT(y[2][0]) if y[0] == "call" and len(y[2]) == 1 and re.search(r"Option::<T>::take$|mem::take$", y[1]) and clean(y[2][0]) == POS else None)
+
+
+def _declarative_step(ctx, F, nb, ntm, sel):
+    """The step written without a loop over the positions: tick = first i with pos[i] < final_pos[i] (none => finished);
+    pos[..tick] = 0; pos[tick] += 1.  Same transition as the loop form: the positions before the first one below its final value
+    are exactly those at their final value, and no such position exists iff the last one was passed (or there are no sets).
+    Returns False when this shape is not present (the caller then reports the missing loop)."""
+    I = ("i",)
+    ps = [c for c in nb.calls() if c.callee and itm(c.callee, "position")]
+    if len(ps) != 1:
+        return False
+    pc = ps[0]
+    recv = cleanT(ntm.operand(pc.args[0], pc.bb))
+    cl = ntm.operand(pc.args[1], pc.bb)
+    pf = positional_form(F, recv, I)
+    if pf is None or cl[0] != "closure" or cl[1] not in F.bodies:
+        return False
+    elem = pf[0]
+    crt = clean(Terms(F.bodies[cl[1]]).return_term())
+    test = proj_simplify(rewrite(crt, lambda y: elem if y == ("arg", 2) else None))
+    c = as_cmp(test)
+    c = canon_cmp(c) if c else None
+    okp = c == ("Lt", ("at", POS, I), ("at", FINAL, I)) and pf[1] <= {("len", POS), ("len", FINAL)} and not [x for x in calls_in(recv) if re.search(r"Iterator>?::(take|skip|filter|step_by|rev|chain)$", x[1])]
+    ctx.check(okp, "next:advance-loop", "the position to advance is not the first i with pos[i] < final_pos[i] over all positions: %s" % short(test)[:120], pc.where(), detail="tick = position(pos[i] < final_pos[i])")
+    if not okp:
+        return True
+    TICK = cleanT(ntm.call_term(pc.term, pc.bb))
+    # the switch on the search result
+    cont = brk = None
+    for sbb, dt, names, t in switches(nb, ntm):
+        d_ = cleanT(dt)
+        if d_[0] == "discr" and d_[1][0] == "call" and d_[1][1].endswith("Try>::branch") and len(d_[1][2]) == 1:
+            d_ = ("discr", d_[1][2][0])
+        if d_[0] == "discr" and d_[1] == TICK and names:
+            vs = set(names.values())
+            if vs == {"Continue", "Break"}:
+                cont, brk = switch_target(t, names, "Continue"), switch_target(t, names, "Break")
+            elif vs == {"Some", "None"}:
+                cont, brk = switch_target(t, names, "Some"), switch_target(t, names, "None")
+    if cont is None:
+        ctx.bad("next:finish-after-last", "the result of the search for the position to advance is not inspected", pc.where())
+        return True
+    # all writes through pointers, classified
+    state, zero, inc, other = [], [], [], []
+    loops = nb.natural_loops()
+    in_loop = set().union(*[set(bl) for _, bl in loops]) if loops else set()
+    for bb, blk in enumerate(nb.blocks):
+        if blk["cleanup"]:
+            continue
+        for pos_, st_ in enumerate(blk["stmts"]):
+            if not (st_["k"] == "assign" and st_["place"]["p"] and st_["place"]["p"][0]["k"] == "deref"):
+                continue
+            pt, v = cleanT(ntm.place(st_["place"], bb, pos_)), cleanT(ntm.rvalue(st_["rv"], bb, pos_))
+            if pt == POS:
+                state.append((bb, v))
+            elif pt == ("at", POS, TICK) and v == ("bin", "Add", pt, ("const", "usize", 1)):
+                inc.append(bb)
+            elif v == ("const", "usize", 0) and pt[0] == "call" and re.search(r"::next$", pt[1]):
+                zero.append((bb, pt))
+            else:
+                other.append((short(pt)[:60], short(v)[:60]))
+    dom = lambda a, b_: nb.dominates(a, b_)
+    okinc = len(inc) == 1 and dom(cont, inc[0]) and inc[0] not in in_loop and not other
+    ctx.check(okinc, "next:increment-by-one", "the found position is not incremented by exactly 1, once, after the search succeeded (increments %d, other writes %s)" % (len(inc), other[:2]), nb.where(), detail="pos[tick] += 1")
+    # the prefix before tick is rewound: for r in pos.iter_mut().take(tick) { *r = 0 } / pos[..tick].fill(0)
+    okz = False
+    if len(zero) == 1 and zero[0][0] in in_loop and dom(cont, zero[0][0]):
+        src, steps = chain_steps(F, zero[0][1][2][0])
+        names_ = [n for n, _ in steps]
+        okz = src == POS and [n for n in names_ if n not in ("iter_mut", "into_iter")] == ["take"] and [v for n, v in steps if n == "take"] == [TICK]
+    fills = [cleanT(ntm.call_term(c_.term, c_.bb)) for c_ in nb.calls() if c_.callee and re.search(r"slice::<impl \[T\]>::fill$", c_.callee)]
+    if not zero and len(fills) == 1:
+        fv = fills[0]
+        okz = fv[2][1] == ("const", "usize", 0) and fv[2][0][0] == "at" and fv[2][0][1] == POS and fv[2][0][2][0] == "agg" and fv[2][0][2][1].endswith("ops::RangeTo") and dict(fv[2][0][2][3]).get("end") == TICK
+    ctx.check(okz, "next:reset-lower-to-zero", "the positions before the advanced one are not all rewound to 0 (and only those)", nb.where(), detail="pos[..tick] = 0")
+    # the state afterwards: None exactly when no position is below its final value, else the advanced vector; stored on
+    # every path that leaves with a combination
+    oks, why = len(state) == 1, "self.pos is stored %d times" % len(state)
+    if oks:
+        sbb_, v = state[0]
+        alts = list(v[1]) if v[0] == "phi" else [v]
+        nones = [a for a in alts if a == NONE_ or (a[0] == "call" and a[1].endswith("::from_residual"))]
+        somes = [a for a in alts if a == _some(POS)]
+        oks = len(nones) >= 1 and len(somes) == 1 and len(nones) + len(somes) == len(alts)
+        why = "the stored state is not None / Some(advanced position): %s" % short(v)[:120]
+        if oks:
+            # Some(..) is built only after a successful search; a None only on its failing side
+            for bb, blk in enumerate(nb.blocks):
+                if blk["cleanup"]:
+                    continue
+                for pos_, st_ in enumerate(blk["stmts"]):
+                    if st_["k"] == "assign" and st_["rv"]["k"] == "agg" and st_["rv"].get("variant") == "Some" and cleanT(ntm.rvalue(st_["rv"], bb, pos_)) == _some(POS) and not dom(cont, bb):
+                        oks, why = False, "the advanced position is stored without a successful search"
+            if inc and not dom(inc[0], sbb_) and dom(cont, sbb_):
+                oks, why = False, "the state is stored before the increment"
+        if oks and sel is not None:
+            # after `take()`, every way out of the non-exhausted side stores the state again
+            live = [t_ for t_ in nb.succ[sel[0]] if t_ != sel[1] and not nb.blocks[t_]["cleanup"]]
+            for st_bb in live:
+                reach = nb.reachable(start=st_bb, removed_blocks=[sbb_])
+                if any(nb.blocks[x]["term"]["k"] == "return" for x in reach):
+                    oks, why = False, "a combination is returned without storing the next state"
+    ctx.check(oks, "next:finish-after-last", "the iterator does not finish exactly when no position is below its final value: %s" % why, nb.where(), detail="no pos[i] < final_pos[i] => None")
+    ctx.check(oks, "next:zero-sets=>one-combination", "the state after a step is not `None if finished else Some(advanced)`: %s" % why, nb.where(), detail="zero sets: the search finds nothing => finished after the one empty combination")
+    return True
 
 
 def _range_index(rows, sub):
